@@ -54,7 +54,8 @@ def atom_str(system, a, marker="'"):
     if a[0] == "t":
         return system.get("time_symbol", "t")
     if a[0] == "f":
-        return system["funs"][a[1]]["expr"]
+        x = system["funs"][a[1]]["expr"]
+        return "(%s)" % x if any(ch in x for ch in "+-/* ") and not (x.endswith(")") and x.count("(") == 1 and x.index("(") > 0 and "/" not in x and "*" not in x.replace("**", "")) else x
     raise ValueError(a)
 
 
@@ -266,9 +267,14 @@ def cfdeps(system):
 # random generation
 # ---------------------------------------------------------------------------------------
 
-def rand_coef(rng, nparams, allow_par=True):
+CONST_FUNS = ["e", "log(2)", "sqrt(2)", "exp(-1)", "sqrt(3)/2", "E**2"]      # symbol-free constants that are not number literals
+
+
+def rand_coef(rng, nparams, allow_par=True, nfuns=0):
     c = Fraction(rng.choice(DYADIC))
     pows = []
+    if nfuns and rng.random() < 0.4:
+        pows.append([["f", rng.randrange(nfuns)], 1])
     if allow_par and nparams and rng.random() < 0.6:
         k = rng.randrange(nparams)
         pows.append([["p", k], rng.choice([-1, -1, 1, -2, 2])])
@@ -291,7 +297,7 @@ def merge_terms(terms):
 
 
 def gen_system(rng, max_entries=4, kinds=("lin", "lin", "off", "nonlin", "time", "coupled"), allow_order=(1, 1, 1, 2, 2, 3),
-               nparams=None, iv_params=True):
+               nparams=None, iv_params=True, const_funs=False):
     m = rng.randint(1, max_entries)
     names = pick_names(rng, m)
     nparams = rng.randint(0, 3) if nparams is None else nparams
@@ -300,6 +306,10 @@ def gen_system(rng, max_entries=4, kinds=("lin", "lin", "off", "nonlin", "time",
     for i in range(m):
         entries.append({"name": names[i], "order": rng.choice(allow_order), "kind": "ode"})
     system = {"entries": entries, "params": params, "funs": []}
+    if const_funs and rng.random() < 0.25:
+        # coefficients and offsets that are symbol-free constants but not number literals (e, log(2), sqrt(2), ...)
+        system["funs"] = [{"expr": x, "deps": []} for x in rng.sample(CONST_FUNS, rng.randint(1, 2))]
+    _nf = len(system["funs"])
     if "time" in kinds and rng.random() < 0.3:
         system["time_symbol"] = rng.choice(["T", "time_", "s"])
     offs, n = offsets(system)
@@ -310,23 +320,23 @@ def gen_system(rng, max_entries=4, kinds=("lin", "lin", "off", "nonlin", "time",
         # own linear part
         for d in range(e["order"]):
             if rng.random() < 0.8:
-                c, pw = rand_coef(rng, nparams)
+                c, pw = rand_coef(rng, nparams, nfuns=_nf)
                 terms.append({"c": str(c), "pows": pw + [[["v", offs[i] + d], 1]]})
         # couplings (linear in other variables)
         if m > 1 and (kind == "coupled" or rng.random() < 0.45):
             for _ in range(rng.randint(1, 2)):
                 j = rng.choice([k for k in range(m) if k != i])
                 gj = offs[j] + rng.randrange(entries[j]["order"])
-                c, pw = rand_coef(rng, nparams)
+                c, pw = rand_coef(rng, nparams, nfuns=_nf)
                 terms.append({"c": str(c), "pows": pw + [[["v", gj], 1]]})
         if kind == "off" and e["order"] == 1 or rng.random() < 0.12:
-            c, pw = rand_coef(rng, nparams)
+            c, pw = rand_coef(rng, nparams, nfuns=_nf)
             terms.append({"c": str(c), "pows": pw})
         if kind == "nonlin":
             for _ in range(rng.randint(1, 2)):
                 g1 = rng.randrange(n)
                 g2 = rng.randrange(n)
-                c, pw = rand_coef(rng, nparams)
+                c, pw = rand_coef(rng, nparams, nfuns=_nf)
                 q = rng.random()
                 if q < 0.4:
                     vp = [[["v", g1], 2]] if g1 == g2 else [[["v", g1], 1], [["v", g2], 1]]
@@ -338,7 +348,7 @@ def gen_system(rng, max_entries=4, kinds=("lin", "lin", "off", "nonlin", "time",
                     vp = [[["v", g1], 2], [["v", g2], -1]] if g1 != g2 else [[["v", g1], 3]]
                 terms.append({"c": str(c), "pows": pw + vp})
         if kind == "time":
-            c, pw = rand_coef(rng, nparams)
+            c, pw = rand_coef(rng, nparams, nfuns=_nf)
             q = rng.random()
             if q < 0.4:
                 terms.append({"c": str(c), "pows": pw + [[["t"], 1], [["v", offs[i]], 1]]})
